@@ -8,7 +8,7 @@ from . import common, prims
 
 PROPERTY = "C03"
 LEVEL = "other"
-CONFIGS_QUICK = ["std", "core"]
+CONFIGS_QUICK = ["std", "alloc"]
 CONFIGS_THOROUGH = ["std", "alloc", "core"]
 EXPLANATION = (
     "Typestate / who-may-call analysis on MIR: (WHO) Future::poll / Stream::poll_next calls occur only inside poll bodies "
